@@ -18,6 +18,9 @@ def gen_cases(tier, seed):
         cases.append({"part": "direct", "seed": seed * 4001 + i, "lists": 30 if q else 150})
     for i in range(32 if q else 192):
         cases.append({"part": "pipeline", "seed": seed * 4003 + i, "n": 6 if q else 16})
+    for i in range(4 if q else 48):
+        # appended later (rank-changing memory-only operators, EXP / SQUARED_DIFFERENCE lowerings): own cases, so that the earlier ones denote what they always did
+        cases.append({"part": "pipeline", "seed": seed * 4003 + 100000 + i, "n": 6 if q else 16, "fams": ["shape-ops", "approx-tail2", "shape-ops"]})
     return cases
 
 
@@ -97,6 +100,8 @@ def run_pipeline(case):
             fam, cfg, model = case.get("wfamily", "?"), case["wcfg"], campaign.unpack_model(case["model_z"])
         else:
             fam = ["exact-chain", "exact-dag", "stripe-stress", "approx-tail", "lut-stress", "alias-stress", "buffer-stress", "lut-stress"][int(rng.integers(0, 8))]
+            if case.get("fams"):
+                fam = case["fams"][t % len(case["fams"])]
             net = netgen.make(fam, case["seed"] * 50 + t)
             cfg = cfggen.rand_cfg(rng)
             model = tflw.build(net)
